@@ -289,8 +289,12 @@ def run_case (case, rep):
       got = [(m["reason"], m["in_port"], m["data"], m["total_len"]) for m in first
              if m["name"] == "packet_in"]
       bare = strip_trailer(raw)
+      # (only where the switch has nothing but the parsed packet to go by: a
+      #  frame that misses the table and came with its bytes is announced
+      #  with those bytes)
       if want and bare != raw and got == [(want[0][0], in_port, bare, len(bare))] \
-         and len(first) == 1 and not first_out:
+         and len(first) == 1 and not first_out \
+         and (via == "buffered_action" or case.get("inject_obj")):
         # (the recorded finding about padding, seen in the packet-in)
         rep.violation("C12 Ethernet padding behind the frame's own payload is not part of what is emitted",
                       "packet-in for a frame of %d octets carries %d (total_len %d)" %
